@@ -1,13 +1,17 @@
 /-
   Helper lemmas for C14 (binomial deduction, `BOp.deduce` / `BOp.deduceK`, src/bi.rs:259-346).
   * rational closed forms (`mixq`, `pyxq`, `rII`, `rIII`, `Kq`) and their algebra;
-  * the lift of `deduceK` on finite inputs of the open domain `Dom14`, one lemma per branch of the Rust
-    `match` (this is where every divisor is shown to be non-zero), the tie arm `_ if b0 == b1 || d0 == d1`
-    of repair 4d5bbb1 included (`deduceK_Tie`; `Kq_tie`: the closed form `Kq` is 0 at a tie);
-  * acceptance of the result by the checked constructor.
+  * the lift of `deduceK` (repair b163717: `k = 0` in Case I, `k = min ka kb` in Case II / III) on finite inputs with
+    `0 < ay < 1` -- the only divisors are `ay` and `1 - ay` --, per case and per active bound (`Kq_tie`: the closed form
+    `Kq` is 0 at a tie).  The lift of the earlier nine-branch operator is in SLV/Refine/C14Nine.lean;
+  * acceptance of the result by the checked constructor.  Since repair d46c983 `deduce` divides `(b, d, u)` by
+    `s = b + d + u` before the checked constructor; `s = bI + dI + uI` whatever the correction term (`ay k + (1-ay) k = k`
+    cancels), which is 1 when antecedent and conditionals add up to 1 (`mixq_sum`): one lifting step `BOp.norm_one`
+    (`deduce_fin_of_K`), the closed forms are the ones of the un-normalised operator.
   No property statements here.
 -/
 import SLV.Props.C10
+import SLV.Refine.C19Lemmas
 import Mathlib.Order.Lattice
 import Mathlib.Algebra.Order.Field.Basic
 
@@ -286,40 +290,120 @@ theorem BOp.tryNew_ok_inv {α : Type} [Scalar α] {b d u a : α} {r : BOp α}
     · cases h
     · cases h; rfl
 
-/-! ### lift of `deduceK`, branch by branch -/
+/-! ### lift of `deduceK` (repair b163717: `k = 0` in Case I, `min ka kb` otherwise)
+
+  Only two divisions are evaluated, by `ay` and by `1 - ay`: the lift needs `0 < ay < 1` and nothing about the antecedent
+  (no `0 < P < 1`, no `0 < a < 1`); `0 ≤ u` is needed to identify `min (u·x) (u·y)` with the closed form `u · min x y`. -/
+
+/-- the model's `ka`, `kb` (factor `u` inside) against the closed form `Kq` (factor `u` outside) -/
+theorem Kq_II' (hu : 0 ≤ u) (hb : b1 < b0) (hd : d0 ≤ d1) :
+    Kq u a b0 d0 b1 d1 ay = min (a * u * (b0 - b1) / ay) ((1 - a) * u * (d1 - d0) / (1 - ay)) := by
+  rw [Kq_II hb hd, mul_min_of_nonneg _ _ hu]
+  congr 1 <;> ring
+
+theorem Kq_III' (hu : 0 ≤ u) (hb : b0 ≤ b1) (hd : d1 < d0) :
+    Kq u a b0 d0 b1 d1 ay = min ((1 - a) * u * (b1 - b0) / ay) (a * u * (d0 - d1) / (1 - ay)) := by
+  rw [Kq_III hb hd, mul_min_of_nonneg _ _ hu]
+  congr 1 <;> ring
 
 /-- unfold `deduceK` on finite inputs down to the comparisons -/
 local macro "unfold_deduceK" : tactic => `(tactic|
-  (unfold BOp.deduceK BOp.projection Scalar.gt
-   simp only [XQ.one_def, XQ.sub_fin, XQ.mul_fin, XQ.add_fin, XQ.lt_fin, XQ.eq_fin, XQ.zero_def]))
+  (unfold BOp.deduceK BOp.minTakesRight Scalar.gt
+   simp only [XQ.one_def, XQ.sub_fin, XQ.mul_fin, XQ.add_fin, XQ.lt_fin, XQ.zero_def]))
+
+/-- Case I: no division at all, every finite input -/
+theorem deduceK_I0 (hI : b1 < b0 ↔ d1 < d0) :
+    BOp.deduceK (liftB (f := f) b d u a) (liftS b0 d0 u0) (liftS b1 d1 u1) (XQ.fin ay)
+      = (XQ.fin 0, .I) := by
+  unfold_deduceK
+  by_cases hb : b1 < b0
+  · simp only [decide_eq_true hb, decide_eq_true (hI.mp hb)]
+  · simp only [decide_eq_false hb, decide_eq_false (fun h => hb (hI.mpr h))]
 
 theorem deduceK_I (hI : b1 < b0 ↔ d1 < d0) :
     BOp.deduceK (liftB (f := f) b d u a) (liftS b0 d0 u0) (liftS b1 d1 u1) (XQ.fin ay)
       = (XQ.fin (Kq u a b0 d0 b1 d1 ay), .I) := by
-  rw [Kq_I hI]
-  unfold_deduceK
-  have e : (decide (b1 < b0) == decide (d1 < d0)) = true := by
-    rw [beq_iff_eq, decide_eq_decide]; exact hI
-  rw [if_pos e]
+  rw [Kq_I hI, deduceK_I0 hI]
 
-/-- the tie arm (repair 4d5bbb1): outside Case I, `b0 = b1` or `d0 = d1` gives `k = 0` with tag `.Tie` -- no
-    comparison of `pyx` with `r`, no division; every finite input -/
-theorem deduceK_Tie0 (hI : ¬(b1 < b0 ↔ d1 < d0)) (ht : b0 = b1 ∨ d0 = d1) :
+/-- Case II on finite inputs with `0 < ay < 1`: both bounds are finite, `k` is their minimum, and the tag says which
+    operand `ka.min(kb)` returned (`kb` iff `kb < ka`) -/
+theorem deduceK_II0 (hy0 : 0 < ay) (hy1 : ay < 1) (hb : b1 < b0) (hd : d0 ≤ d1) :
     BOp.deduceK (liftB (f := f) b d u a) (liftS b0 d0 u0) (liftS b1 d1 u1) (XQ.fin ay)
-      = (XQ.fin 0, .Tie) := by
+      = (XQ.fin (min (a * u * (b0 - b1) / ay) ((1 - a) * u * (d1 - d0) / (1 - ay))),
+          if (1 - a) * u * (d1 - d0) / (1 - ay) < a * u * (b0 - b1) / ay then .IIB else .IIA) := by
   unfold_deduceK
-  have e : ¬ (decide (b1 < b0) == decide (d1 < d0)) = true := by
-    rw [beq_iff_eq, decide_eq_decide]; exact hI
-  have e2 : (decide (b0 = b1) || decide (d0 = d1)) = true := by
-    rw [Bool.or_eq_true, decide_eq_true_eq, decide_eq_true_eq]; exact ht
-  rw [if_neg e, if_pos e2]
+  simp only [decide_eq_true hb, decide_eq_false (not_lt.mpr hd)]
+  rw [XQ.div_fin _ _ hy0.ne', XQ.div_fin _ _ (sub_pos.mpr hy1).ne']
+  simp only [XQ.min_fin, XQ.isNaN_fin, XQ.lt_fin, Bool.not_false, Bool.true_and, Bool.false_or,
+    decide_eq_true_eq]
 
-/-- … which is the closed form `Kq` (closed domain: `0 ≤ a`, `0 ≤ ay ≤ 1`) -/
-theorem deduceK_Tie (ha0 : 0 ≤ a) (hy0 : 0 ≤ ay) (hy1 : ay ≤ 1) (hI : ¬(b1 < b0 ↔ d1 < d0))
-    (ht : b0 = b1 ∨ d0 = d1) :
+/-- Case III, mirrored -/
+theorem deduceK_III0 (hy0 : 0 < ay) (hy1 : ay < 1) (hb : b0 ≤ b1) (hd : d1 < d0) :
     BOp.deduceK (liftB (f := f) b d u a) (liftS b0 d0 u0) (liftS b1 d1 u1) (XQ.fin ay)
-      = (XQ.fin (Kq u a b0 d0 b1 d1 ay), .Tie) := by
-  rw [Kq_tie ha0 hy0 hy1 ht, deduceK_Tie0 hI ht]
+      = (XQ.fin (min ((1 - a) * u * (b1 - b0) / ay) (a * u * (d0 - d1) / (1 - ay))),
+          if a * u * (d0 - d1) / (1 - ay) < (1 - a) * u * (b1 - b0) / ay then .IIIB else .IIIA) := by
+  unfold_deduceK
+  simp only [decide_eq_false (not_lt.mpr hb), decide_eq_true hd]
+  rw [XQ.div_fin _ _ hy0.ne', XQ.div_fin _ _ (sub_pos.mpr hy1).ne']
+  simp only [XQ.min_fin, XQ.isNaN_fin, XQ.lt_fin, Bool.not_false, Bool.true_and, Bool.false_or,
+    decide_eq_true_eq]
+
+section bound
+variable (hu : 0 ≤ u) (hy0 : 0 < ay) (hy1 : ay < 1)
+include hu hy0 hy1
+
+/-- the correction term is the finite closed form `Kq` — Case I, Case II and Case III, ties included; any antecedent
+    with `0 ≤ u`, any conditionals, `0 < ay < 1` -/
+theorem deduceK_fst' :
+    (BOp.deduceK (liftB (f := f) b d u a) (liftS b0 d0 u0) (liftS b1 d1 u1) (XQ.fin ay)).1
+      = XQ.fin (Kq u a b0 d0 b1 d1 ay) := by
+  rcases case_split b0 d0 b1 d1 with hI | ⟨hb, hd⟩ | ⟨hb, hd⟩
+  · rw [deduceK_I hI]
+  · rw [deduceK_II0 hy0 hy1 hb hd, Kq_II' hu hb hd]
+  · rw [deduceK_III0 hy0 hy1 hb hd, Kq_III' hu hb hd]
+
+/-- Case II, the belief bound is active (`ka ≤ kb`, i.e. sub-case A of the operator's definition): tag `.IIA` -/
+theorem deduceK_IIA (hb : b1 < b0) (hd : d0 ≤ d1)
+    (hA : a * (b0 - b1) * (1 - ay) ≤ ay * (1 - a) * (d1 - d0)) :
+    BOp.deduceK (liftB (f := f) b d u a) (liftS b0 d0 u0) (liftS b1 d1 u1) (XQ.fin ay)
+      = (XQ.fin (Kq u a b0 d0 b1 d1 ay), .IIA) := by
+  have hle : a * u * (b0 - b1) / ay ≤ (1 - a) * u * (d1 - d0) / (1 - ay) := by
+    rw [div_le_div_iff₀ hy0 (sub_pos.mpr hy1)]
+    nlinarith [mul_le_mul_of_nonneg_left hA hu]
+  rw [deduceK_II0 hy0 hy1 hb hd, Kq_II' hu hb hd, if_neg (not_lt.mpr hle)]
+
+/-- Case II, the disbelief bound is strictly smaller (`kb < ka`, sub-case B; needs `0 < u`: for a dogmatic antecedent
+    both bounds are 0 and `min` returns its left operand): tag `.IIB` -/
+theorem deduceK_IIB (hup : 0 < u) (hb : b1 < b0) (hd : d0 ≤ d1)
+    (hB : ay * (1 - a) * (d1 - d0) < a * (b0 - b1) * (1 - ay)) :
+    BOp.deduceK (liftB (f := f) b d u a) (liftS b0 d0 u0) (liftS b1 d1 u1) (XQ.fin ay)
+      = (XQ.fin (Kq u a b0 d0 b1 d1 ay), .IIB) := by
+  have hlt : (1 - a) * u * (d1 - d0) / (1 - ay) < a * u * (b0 - b1) / ay := by
+    rw [div_lt_div_iff₀ (sub_pos.mpr hy1) hy0]
+    nlinarith [mul_lt_mul_of_pos_left hB hup]
+  rw [deduceK_II0 hy0 hy1 hb hd, Kq_II' hu hb hd, if_pos hlt]
+
+/-- Case III, belief bound active: tag `.IIIA` -/
+theorem deduceK_IIIA (hb : b0 ≤ b1) (hd : d1 < d0)
+    (hA : (1 - a) * (b1 - b0) * (1 - ay) ≤ ay * a * (d0 - d1)) :
+    BOp.deduceK (liftB (f := f) b d u a) (liftS b0 d0 u0) (liftS b1 d1 u1) (XQ.fin ay)
+      = (XQ.fin (Kq u a b0 d0 b1 d1 ay), .IIIA) := by
+  have hle : (1 - a) * u * (b1 - b0) / ay ≤ a * u * (d0 - d1) / (1 - ay) := by
+    rw [div_le_div_iff₀ hy0 (sub_pos.mpr hy1)]
+    nlinarith [mul_le_mul_of_nonneg_left hA hu]
+  rw [deduceK_III0 hy0 hy1 hb hd, Kq_III' hu hb hd, if_neg (not_lt.mpr hle)]
+
+/-- Case III, disbelief bound strictly smaller: tag `.IIIB` -/
+theorem deduceK_IIIB (hup : 0 < u) (hb : b0 ≤ b1) (hd : d1 < d0)
+    (hB : ay * a * (d0 - d1) < (1 - a) * (b1 - b0) * (1 - ay)) :
+    BOp.deduceK (liftB (f := f) b d u a) (liftS b0 d0 u0) (liftS b1 d1 u1) (XQ.fin ay)
+      = (XQ.fin (Kq u a b0 d0 b1 d1 ay), .IIIB) := by
+  have hlt : a * u * (d0 - d1) / (1 - ay) < (1 - a) * u * (b1 - b0) / ay := by
+    rw [div_lt_div_iff₀ (sub_pos.mpr hy1) hy0]
+    nlinarith [mul_lt_mul_of_pos_left hB hup]
+  rw [deduceK_III0 hy0 hy1 hb hd, Kq_III' hu hb hd, if_pos hlt]
+
+end bound
 
 section branches
 variable (h : Dom14 b d u a b0 d0 u0 b1 d1 u1 ay)
@@ -327,7 +411,7 @@ include h
 
 theorem Dom14.d_eq : d = 1 - b - u := by linarith [h.x.hs]
 
-/-- in Case II the A-branch forces `d0 < d1` (so the divisor `d1 - d0` of II.A.2 is non-zero) -/
+/-- in Case II sub-case A (`pyx ≤ r`) forces `d0 < d1` -/
 theorem Dom14.IIA_strict (hb : b1 < b0) (hA : pyxq a b0 u0 b1 u1 ay ≤ rII d0 b1 ay) : d0 < d1 := by
   have e := pyx_sub_rII (a := a) (ay := ay) h.c0.hs h.c1.hs
   have p1 : 0 < a * (b0 - b1) * (1 - ay) :=
@@ -338,7 +422,7 @@ theorem Dom14.IIA_strict (hb : b1 < b0) (hA : pyxq a b0 u0 b1 u1 ay ≤ rII d0 b
     mul_nonpos_of_nonneg_of_nonpos p2.le (sub_nonpos.mpr (not_lt.mp hc))
   linarith
 
-/-- in Case III the B-branch forces `b0 < b1` (so the divisor `b1 - b0` of III.B.2 is non-zero) -/
+/-- in Case III sub-case B (`pyx > r`) forces `b0 < b1` -/
 theorem Dom14.IIIB_strict (hd : d1 < d0) (hB : rIII b0 d1 ay < pyxq a b0 u0 b1 u1 ay) : b0 < b1 := by
   have e := pyx_sub_rIII (a := a) (ay := ay) h.c0.hs h.c1.hs
   have p1 : 0 < ay * a * (d0 - d1) := mul_pos (mul_pos h.hy0 h.ha0) (sub_pos.mpr hd)
@@ -348,172 +432,43 @@ theorem Dom14.IIIB_strict (hd : d1 < d0) (hB : rIII b0 d1 ay < pyxq a b0 u0 b1 u
     mul_nonpos_of_nonneg_of_nonpos p2.le (sub_nonpos.mpr (not_lt.mp hc))
   nlinarith
 
-theorem deduceK_IIA1 (hb : b1 < b0) (hd : d0 ≤ d1) (hA : pyxq a b0 u0 b1 u1 ay ≤ rII d0 b1 ay)
-    (hP : b + a * u ≤ a) :
-    BOp.deduceK (liftB (f := f) b d u a) (liftS b0 d0 u0) (liftS b1 d1 u1) (XQ.fin ay)
-      = (XQ.fin (Kq u a b0 d0 b1 d1 ay), .IIA1) := by
-  have hy0 := h.hy0; have hP0 := h.hP0
-  have hds : d0 < d1 := h.IIA_strict hb hA
-  rw [Kq_IIA h.hy0 h.hy1 hb hd (by linarith [pyx_sub_rII (a := a) (ay := ay) h.c0.hs h.c1.hs])]
-  unfold pyxq rII at hA
-  unfold_deduceK
-  simp only [decide_eq_true hb, decide_eq_false (not_lt.mpr hd), decide_eq_false (not_lt.mpr hA),
-    decide_eq_false (not_lt.mpr hP), decide_eq_false hb.ne', decide_eq_false hds.ne, Bool.or_self,
-    Bool.false_eq_true, if_false, if_true, XQ.lt_fin]
-  rw [if_neg (by decide), XQ.div_fin _ _ (mul_ne_zero hP0.ne' hy0.ne')]
-  have e := h.d_eq; subst e
-  congr 2; field_simp; ring
-
-theorem deduceK_IIA2 (hb : b1 < b0) (hd : d0 ≤ d1) (hA : pyxq a b0 u0 b1 u1 ay ≤ rII d0 b1 ay)
-    (hP : a < b + a * u) :
-    BOp.deduceK (liftB (f := f) b d u a) (liftS b0 d0 u0) (liftS b1 d1 u1) (XQ.fin ay)
-      = (XQ.fin (Kq u a b0 d0 b1 d1 ay), .IIA2) := by
-  have hy0 := h.hy0; have hP1 : 0 < 1 - (b + a * u) := sub_pos.mpr h.hP1
-  have hds : d0 < d1 := h.IIA_strict hb hA
-  have hd' : 0 < d1 - d0 := sub_pos.mpr hds
-  rw [Kq_IIA h.hy0 h.hy1 hb hd (by linarith [pyx_sub_rII (a := a) (ay := ay) h.c0.hs h.c1.hs])]
-  unfold pyxq rII at hA
-  unfold_deduceK
-  simp only [decide_eq_true hb, decide_eq_false (not_lt.mpr hd), decide_eq_false (not_lt.mpr hA),
-    decide_eq_true hP, decide_eq_false hb.ne', decide_eq_false hds.ne, Bool.or_self,
-    Bool.false_eq_true, if_false, if_true, XQ.lt_fin]
-  rw [if_neg (by decide), XQ.div_fin _ _ (mul_ne_zero (mul_ne_zero hP1.ne' hy0.ne') hd'.ne')]
-  have e := h.d_eq; subst e
-  congr 2; field_simp; ring
-
-theorem deduceK_IIB1 (hb : b1 < b0) (hd : d0 < d1) (hB : rII d0 b1 ay < pyxq a b0 u0 b1 u1 ay)
-    (hP : b + a * u ≤ a) :
-    BOp.deduceK (liftB (f := f) b d u a) (liftS b0 d0 u0) (liftS b1 d1 u1) (XQ.fin ay)
-      = (XQ.fin (Kq u a b0 d0 b1 d1 ay), .IIB1) := by
-  have hy1 : 0 < 1 - ay := sub_pos.mpr h.hy1; have hP0 := h.hP0
-  have hb' : 0 < b0 - b1 := sub_pos.mpr hb
-  rw [Kq_IIB h.hy0 h.hy1 hb hd.le (by linarith [pyx_sub_rII (a := a) (ay := ay) h.c0.hs h.c1.hs])]
-  unfold pyxq rII at hB
-  unfold_deduceK
-  simp only [decide_eq_true hb, decide_eq_false (not_lt.mpr hd.le), decide_eq_true hB,
-    decide_eq_false (not_lt.mpr hP), decide_eq_false hb.ne', decide_eq_false hd.ne, Bool.or_self,
-    Bool.false_eq_true, if_false, if_true, XQ.lt_fin]
-  rw [if_neg (by decide), XQ.div_fin _ _ (mul_ne_zero (mul_ne_zero hP0.ne' hy1.ne') hb'.ne')]
-  have e := h.d_eq; subst e
-  congr 2; field_simp; ring
-
-theorem deduceK_IIB2 (hb : b1 < b0) (hd : d0 < d1) (hB : rII d0 b1 ay < pyxq a b0 u0 b1 u1 ay)
-    (hP : a < b + a * u) :
-    BOp.deduceK (liftB (f := f) b d u a) (liftS b0 d0 u0) (liftS b1 d1 u1) (XQ.fin ay)
-      = (XQ.fin (Kq u a b0 d0 b1 d1 ay), .IIB2) := by
-  have hy1 : 0 < 1 - ay := sub_pos.mpr h.hy1; have hP1 : 0 < 1 - (b + a * u) := sub_pos.mpr h.hP1
-  rw [Kq_IIB h.hy0 h.hy1 hb hd.le (by linarith [pyx_sub_rII (a := a) (ay := ay) h.c0.hs h.c1.hs])]
-  unfold pyxq rII at hB
-  unfold_deduceK
-  simp only [decide_eq_true hb, decide_eq_false (not_lt.mpr hd.le), decide_eq_true hB,
-    decide_eq_true hP, decide_eq_false hb.ne', decide_eq_false hd.ne, Bool.or_self,
-    Bool.false_eq_true, if_false, if_true, XQ.lt_fin]
-  rw [if_neg (by decide), XQ.div_fin _ _ (mul_ne_zero hP1.ne' hy1.ne')]
-  have e := h.d_eq; subst e
-  congr 2; field_simp; ring
-
-theorem deduceK_IIIA1 (hb : b0 < b1) (hd : d1 < d0) (hA : pyxq a b0 u0 b1 u1 ay ≤ rIII b0 d1 ay)
-    (hP : b + a * u ≤ a) :
-    BOp.deduceK (liftB (f := f) b d u a) (liftS b0 d0 u0) (liftS b1 d1 u1) (XQ.fin ay)
-      = (XQ.fin (Kq u a b0 d0 b1 d1 ay), .IIIA1) := by
-  have hy0 := h.hy0; have hP0 := h.hP0
-  have hd' : 0 < d0 - d1 := sub_pos.mpr hd
-  rw [Kq_IIIA h.hy0 h.hy1 hb.le hd (by linarith [pyx_sub_rIII (a := a) (ay := ay) h.c0.hs h.c1.hs])]
-  unfold pyxq rIII at hA
-  unfold_deduceK
-  simp only [decide_eq_false (not_lt.mpr hb.le), decide_eq_true hd, decide_eq_false (not_lt.mpr hA),
-    decide_eq_false (not_lt.mpr hP), decide_eq_false hb.ne, decide_eq_false hd.ne', Bool.or_self,
-    Bool.false_eq_true, if_false, XQ.lt_fin]
-  rw [if_neg (by decide), XQ.div_fin _ _ (mul_ne_zero (mul_ne_zero hP0.ne' hy0.ne') hd'.ne')]
-  have e := h.d_eq; subst e
-  congr 2; field_simp; ring
-
-theorem deduceK_IIIA2 (hb : b0 < b1) (hd : d1 < d0) (hA : pyxq a b0 u0 b1 u1 ay ≤ rIII b0 d1 ay)
-    (hP : a < b + a * u) :
-    BOp.deduceK (liftB (f := f) b d u a) (liftS b0 d0 u0) (liftS b1 d1 u1) (XQ.fin ay)
-      = (XQ.fin (Kq u a b0 d0 b1 d1 ay), .IIIA2) := by
-  have hy0 := h.hy0; have hP1 : 0 < 1 - (b + a * u) := sub_pos.mpr h.hP1
-  rw [Kq_IIIA h.hy0 h.hy1 hb.le hd (by linarith [pyx_sub_rIII (a := a) (ay := ay) h.c0.hs h.c1.hs])]
-  unfold pyxq rIII at hA
-  unfold_deduceK
-  simp only [decide_eq_false (not_lt.mpr hb.le), decide_eq_true hd, decide_eq_false (not_lt.mpr hA),
-    decide_eq_true hP, decide_eq_false hb.ne, decide_eq_false hd.ne', Bool.or_self,
-    Bool.false_eq_true, if_false, XQ.lt_fin]
-  rw [if_neg (by decide), XQ.div_fin _ _ (mul_ne_zero hP1.ne' hy0.ne')]
-  have e := h.d_eq; subst e
-  congr 2; field_simp; ring
-
-theorem deduceK_IIIB1 (hb : b0 ≤ b1) (hd : d1 < d0) (hB : rIII b0 d1 ay < pyxq a b0 u0 b1 u1 ay)
-    (hP : b + a * u ≤ a) :
-    BOp.deduceK (liftB (f := f) b d u a) (liftS b0 d0 u0) (liftS b1 d1 u1) (XQ.fin ay)
-      = (XQ.fin (Kq u a b0 d0 b1 d1 ay), .IIIB1) := by
-  have hy1 : 0 < 1 - ay := sub_pos.mpr h.hy1; have hP0 := h.hP0
-  have hbs : b0 < b1 := h.IIIB_strict hd hB
-  rw [Kq_IIIB h.hy0 h.hy1 hb hd (by linarith [pyx_sub_rIII (a := a) (ay := ay) h.c0.hs h.c1.hs])]
-  unfold pyxq rIII at hB
-  unfold_deduceK
-  simp only [decide_eq_false (not_lt.mpr hb), decide_eq_true hd, decide_eq_true hB,
-    decide_eq_false (not_lt.mpr hP), decide_eq_false hbs.ne, decide_eq_false hd.ne', Bool.or_self,
-    Bool.false_eq_true, if_false, XQ.lt_fin]
-  rw [if_neg (by decide), XQ.div_fin _ _ (mul_ne_zero hP0.ne' hy1.ne')]
-  have e := h.d_eq; subst e
-  congr 2; field_simp; ring
-
-theorem deduceK_IIIB2 (hb : b0 ≤ b1) (hd : d1 < d0) (hB : rIII b0 d1 ay < pyxq a b0 u0 b1 u1 ay)
-    (hP : a < b + a * u) :
-    BOp.deduceK (liftB (f := f) b d u a) (liftS b0 d0 u0) (liftS b1 d1 u1) (XQ.fin ay)
-      = (XQ.fin (Kq u a b0 d0 b1 d1 ay), .IIIB2) := by
-  have hy1 : 0 < 1 - ay := sub_pos.mpr h.hy1; have hP1 : 0 < 1 - (b + a * u) := sub_pos.mpr h.hP1
-  have hbs : b0 < b1 := h.IIIB_strict hd hB
-  have hb' : 0 < b1 - b0 := sub_pos.mpr hbs
-  rw [Kq_IIIB h.hy0 h.hy1 hb hd (by linarith [pyx_sub_rIII (a := a) (ay := ay) h.c0.hs h.c1.hs])]
-  unfold pyxq rIII at hB
-  unfold_deduceK
-  simp only [decide_eq_false (not_lt.mpr hb), decide_eq_true hd, decide_eq_true hB,
-    decide_eq_true hP, decide_eq_false hbs.ne, decide_eq_false hd.ne', Bool.or_self,
-    Bool.false_eq_true, if_false, XQ.lt_fin]
-  rw [if_neg (by decide), XQ.div_fin _ _ (mul_ne_zero (mul_ne_zero hP1.ne' hy1.ne') hb'.ne')]
-  have e := h.d_eq; subst e
-  congr 2; field_simp; ring
-
-/-- on the open domain `deduceK` returns the finite closed form `Kq` — in every branch (ten: Case I, the tie arm,
-    and the eight sub-cases of Case II / III) -/
+/-- on the open domain `deduceK` returns the finite closed form `Kq` -/
 theorem deduceK_fst :
     (BOp.deduceK (liftB (f := f) b d u a) (liftS b0 d0 u0) (liftS b1 d1 u1) (XQ.fin ay)).1
-      = XQ.fin (Kq u a b0 d0 b1 d1 ay) := by
-  rcases case_split b0 d0 b1 d1 with hI | ⟨hb, hd⟩ | ⟨hb, hd⟩
-  · rw [deduceK_I hI]
-  · rcases hd.eq_or_lt with ht | hds
-    · rw [deduceK_Tie h.x.ha0 h.hy0.le h.hy1.le
-        (fun hI => absurd (hI.mp hb) (not_lt.mpr hd)) (Or.inr ht)]
-    by_cases hA : pyxq a b0 u0 b1 u1 ay ≤ rII d0 b1 ay <;> by_cases hP : b + a * u ≤ a
-    · rw [deduceK_IIA1 h hb hd hA hP]
-    · rw [deduceK_IIA2 h hb hd hA (not_le.mp hP)]
-    · rw [deduceK_IIB1 h hb hds (not_le.mp hA) hP]
-    · rw [deduceK_IIB2 h hb hds (not_le.mp hA) (not_le.mp hP)]
-  · rcases hb.eq_or_lt with ht | hbs
-    · rw [deduceK_Tie h.x.ha0 h.hy0.le h.hy1.le
-        (fun hI => absurd (hI.mpr hd) (not_lt.mpr hb)) (Or.inl ht)]
-    by_cases hA : pyxq a b0 u0 b1 u1 ay ≤ rIII b0 d1 ay <;> by_cases hP : b + a * u ≤ a
-    · rw [deduceK_IIIA1 h hbs hd hA hP]
-    · rw [deduceK_IIIA2 h hbs hd hA (not_le.mp hP)]
-    · rw [deduceK_IIIB1 h hb hd (not_le.mp hA) hP]
-    · rw [deduceK_IIIB2 h hb hd (not_le.mp hA) (not_le.mp hP)]
+      = XQ.fin (Kq u a b0 d0 b1 d1 ay) :=
+  deduceK_fst' h.x.hu h.hy0 h.hy1
 
 end branches
 
 /-! ### lift of `deduce` -/
 
-/-- `deduce` on finite inputs, given the value of the correction term -/
+/-- `deduce` on finite inputs, given the value of the correction term `K` and `bI + dI + uI = 1` (then the normaliser
+    `s = (bI - ay K) + (dI - (1-ay) K) + (uI + K)` of repair d46c983 is 1 for every `K`) -/
 theorem deduce_fin_of_K {K : ℚ}
+    (hs : mixq b d u a b0 b1 + mixq b d u a d0 d1 + mixq b d u a u0 u1 = 1)
     (hK : (BOp.deduceK (liftB (f := f) b d u a) (liftS b0 d0 u0) (liftS b1 d1 u1) (XQ.fin ay)).1
       = XQ.fin K) :
     BOp.deduce (liftB (f := f) b d u a) (liftS b0 d0 u0) (liftS b1 d1 u1) (XQ.fin ay)
       = (BOp.tryNew (XQ.fin (mixq b d u a b0 b1 - ay * K)) (XQ.fin (mixq b d u a d0 d1 - (1 - ay) * K))
           (XQ.fin (mixq b d u a u0 u1 + K)) (XQ.fin ay),
         (BOp.deduceK (liftB (f := f) b d u a) (liftS b0 d0 u0) (liftS b1 d1 u1) (XQ.fin ay)).2) := by
+  have hs' : (mixq b d u a b0 b1 - ay * K) + (mixq b d u a d0 d1 - (1 - ay) * K) + (mixq b d u a u0 u1 + K) = 1 := by
+    linarith
+  rw [← BOp.norm_one hs']
   unfold BOp.deduce
   simp only [hK, XQ.one_def, XQ.sub_fin, XQ.mul_fin, XQ.add_fin, mixq]
+
+/-- `deduce` is accepted and returns the closed form for EVERY well-formed antecedent (absolute, dogmatic, vacuous,
+    `a = 0`, `a = 1`, `P = 0`, `P = 1` included), well-formed conditionals and `0 < ay < 1` -/
+theorem deduce_ok' (hx : BWF b d u a) (h0 : SWF3 b0 d0 u0) (h1 : SWF3 b1 d1 u1) (hy0 : 0 < ay) (hy1 : ay < 1) :
+    BOp.deduce (liftB (f := f) b d u a) (liftS b0 d0 u0) (liftS b1 d1 u1) (XQ.fin ay)
+      = (.ok ⟨XQ.fin (mixq b d u a b0 b1 - ay * Kq u a b0 d0 b1 d1 ay),
+              XQ.fin (mixq b d u a d0 d1 - (1 - ay) * Kq u a b0 d0 b1 d1 ay),
+              XQ.fin (mixq b d u a u0 u1 + Kq u a b0 d0 b1 d1 ay), XQ.fin ay⟩,
+        (BOp.deduceK (liftB (f := f) b d u a) (liftS b0 d0 u0) (liftS b1 d1 u1) (XQ.fin ay)).2) := by
+  rw [deduce_fin_of_K (mixq_sum hx.hs h0.hs h1.hs) (deduceK_fst' hx.hu hy0 hy1)]
+  have w := res_bwf hx h0 h1 hy0 hy1
+  rw [BOp.tryNew_fin_ok w.hb w.hd w.hu w.hs w.ha0 w.ha1]
 
 /-- on the open domain `deduce` is accepted and returns the closed form -/
 theorem deduce_ok (h : Dom14 b d u a b0 d0 u0 b1 d1 u1 ay) :
@@ -522,7 +477,7 @@ theorem deduce_ok (h : Dom14 b d u a b0 d0 u0 b1 d1 u1 ay) :
               XQ.fin (mixq b d u a d0 d1 - (1 - ay) * Kq u a b0 d0 b1 d1 ay),
               XQ.fin (mixq b d u a u0 u1 + Kq u a b0 d0 b1 d1 ay), XQ.fin ay⟩,
         (BOp.deduceK (liftB (f := f) b d u a) (liftS b0 d0 u0) (liftS b1 d1 u1) (XQ.fin ay)).2) := by
-  rw [deduce_fin_of_K (deduceK_fst h)]
+  rw [deduce_fin_of_K (mixq_sum h.x.hs h.c0.hs h.c1.hs) (deduceK_fst h)]
   have w := res_bwf h.x h.c0 h.c1 h.hy0 h.hy1
   rw [BOp.tryNew_fin_ok w.hb w.hd w.hu w.hs w.ha0 w.ha1]
 
